@@ -43,6 +43,11 @@ def enc_tree(t, fold=False):
     return " ".join(out)
 
 
+def t_is_dir(tree, rel):
+    v = tree.get(rel)
+    return v is not None and v[0] == "d"
+
+
 class Recorder:
     """drives a World through a history and records what the monitors need"""
     def __init__(self, world, rng):
@@ -60,6 +65,9 @@ class Recorder:
         # window is a measured weak spot of the pinned engine (known finding); the generator avoids it by construction
         self.freed = [set(), set()]
         self.avoid_reuse = True
+        # paths created / written / moved-to since the last quiescence: a folder with such (possibly unsynced) content beneath
+        # it is not renamed inside the same window (measured weak spot of the pinned engine: folder rename with unsynced children)
+        self.touched = set()
 
     def fresh(self):
         t = self.next_tag
@@ -98,6 +106,11 @@ class Recorder:
                 if fold(dest) == fold(f) or fold(dest).startswith(fold(f) + "/") or fold(f).startswith(fold(dest) + "/"):
                     self.rejected += 1
                     return False
+        if self.avoid_reuse and kind == "rename":
+            src = rels[0]
+            if any(t == src or t.startswith(src + "/") for t in self.touched if t != src) and t_is_dir(self.w.tree(side), src):
+                self.rejected += 1
+                return False
         args = [self.abs(side, r) for r in rels]
         if kind in ("create", "write"):
             args.append(content(tag))
@@ -109,6 +122,8 @@ class Recorder:
         self.ops.append((side, kind) + tuple(rels) + ((tag,) if tag is not None else ()))
         if kind in ("delete", "rename"):
             self.freed[side].add(rels[0])
+        if kind in ("create", "write", "mkdir", "rename"):
+            self.touched.add(rels[-1])
         if kind == "create":
             self.ledger.append("W:%d:~" % tag)
         elif kind == "write":
@@ -217,6 +232,7 @@ class Recorder:
                     # entries linger: reuse stays excluded for the whole run there (measured weak spot, known finding)
                     if not (self.w.provs[0].oid_is_path or self.w.provs[1].oid_is_path):
                         self.freed = [set(), set()]
+                    self.touched = set()
                     return True
             else:
                 quiet_rounds = 0
